@@ -125,6 +125,10 @@ func w1GenProp(r *rand.Rand, c *simrt.Case, nclients, maxOps int, prop, tier str
 		}
 		w1S3WriteFaults(r, c, r.IntN(3))
 		c.Program = append(c.Program, simrt.Op{Actor: 100, Kind: "crash"}, simrt.Op{Actor: 100, Kind: "verify"})
+	case "C25":
+		w1GenHealth(r, c, nclients, maxOps)
+	case "C44":
+		w1GenReplica(r, c, nclients, maxOps)
 	default:
 		w1GenProduceHeavy(r, c, nclients, maxOps, prop)
 	}
